@@ -976,7 +976,7 @@ func c05Gen(r *Rng, tier string, emit func(string)) {
 		k := r.Intn(5)
 		var it []string
 		for j := 0; j < k; j++ {
-			it = append(it, fmt.Sprintf("%d:%d:%d", 1+r.I64n(1<<40), r.Intn(9), r.Intn(99)))
+			it = append(it, fmt.Sprintf("%d:%d:%d", xgRef(r, 40), r.Intn(9), r.Intn(99)))
 		}
 		emit(strings.TrimSpace("wn " + strings.Join(it, ",")))
 	}
